@@ -533,9 +533,12 @@ func inboundPaths(r *lib.Run, idx, limit int) {
 		return out
 	}
 	scens := []scen{
-		{"success", func(p *peer, c uint16, n int) { _ = stream(p, c, portalwire.VerifEncodeContents(items(n)), false) }, 12 * time.Second},
-		{"garbage-stream", func(p *peer, c uint16, n int) { _ = stream(p, c, []byte{0xff, 0xff, 0xff, 0xff, 0x7f, 1, 2, 3}, false) }, 12 * time.Second},
-		{"wrong-item-count", func(p *peer, c uint16, n int) { _ = stream(p, c, portalwire.VerifEncodeContents(items(n+1)), false) }, 12 * time.Second},
+		// The slots come back as soon as the node has read the stream to its end - or, when utp-go delivers the end of
+		// a stream late or not at all (it does now and then), when the code's own 15 s accept context or 60 s read
+		// timeout ends the reception. The watchdog is that bound, not a guess at how long a good transfer takes.
+		{"success", func(p *peer, c uint16, n int) { _ = stream(p, c, portalwire.VerifEncodeContents(items(n)), false) }, 100 * time.Second},
+		{"garbage-stream", func(p *peer, c uint16, n int) { _ = stream(p, c, []byte{0xff, 0xff, 0xff, 0xff, 0x7f, 1, 2, 3}, false) }, 100 * time.Second},
+		{"wrong-item-count", func(p *peer, c uint16, n int) { _ = stream(p, c, portalwire.VerifEncodeContents(items(n+1)), false) }, 100 * time.Second},
 		{"dialled-and-closed", func(p *peer, c uint16, n int) { _ = stream(p, c, nil, true) }, 100 * time.Second}, // the code's own 60 s read timeout
 		{"never-dialled", func(p *peer, c uint16, n int) {}, 60 * time.Second},                                    // the code's own 15 s accept timeout
 	}
@@ -664,7 +667,7 @@ func inboundPaths(r *lib.Run, idx, limit int) {
 		a, c, ok := send(w.peers[0], 1)
 		if ok && a > 0 {
 			_ = stream(w.peers[0], c, portalwire.VerifEncodeContents(items(a)), false)
-			w.verdict("transfer:success-again", "inbound", 12*time.Second, nil)
+			w.verdict("transfer:success-again", "inbound", 100*time.Second, nil)
 		}
 	}
 }
